@@ -174,42 +174,116 @@ def _func_body(src, header_re):
         j += 1
 
 
-def extract_constants():
-    """what the model assumes about rest/router/patrouter.go and core/search/tree.go, re-read from the checked tree"""
-    pr = open(os.path.join(vlib.REPO, "rest/router/patrouter.go")).read()
-    tr = open(os.path.join(vlib.REPO, "core/search/tree.go")).read()
-    body = _func_body(pr, r"func validMethod\(method string\) bool \{")
-    methods = []
-    for tok in re.findall(r'method\s*==\s*(http\.\w+|"[^"]*")', body):
-        if tok.startswith('"'):
-            methods.append(tok[1:-1])
-        else:
-            name = tok.split(".")[1]
-            if name not in HTTP_METHOD_CONSTS:
-                raise RuntimeError("C09 regen: unknown method constant %s in validMethod" % tok)
-            methods.append(HTTP_METHOD_CONSTS[name])
-    if not methods or len(re.findall(r"==", body)) != len(methods) or "!=" in body or "&&" in body:
-        raise RuntimeError("C09 regen: validMethod is no longer a disjunction of method equalities: %r" % body)
+MODEL_CONSTS = {"methods": ["DELETE", "GET", "HEAD", "OPTIONS", "PATCH", "POST", "PUT"], "allow_header": "Allow",
+                "allow_sep": ", ", "status": 405, "colon": ":", "slash": "/"}
 
-    def const(src, name, what):
-        m = re.search(r'\b%s\s*=\s*("(?:[^"\\]|\\.)*"|\'(?:[^\'\\]|\\.)\')' % name, src)
+
+def _pkg_source(rel):
+    """the non-test Go files of a package directory of the checked tree, concatenated (a declaration may move
+    between the files of its package without changing anything), comments removed"""
+    d = os.path.join(vlib.REPO, rel)
+    out = []
+    for f in sorted(os.listdir(d)):
+        if f.endswith(".go") and not f.endswith("_test.go"):
+            out.append(open(os.path.join(d, f)).read())
+    src = "\n".join(out)
+    src = re.sub(r"/\*.*?\*/", " ", src, flags=re.S)
+    return re.sub(r"(?m)//[^\n]*$", "", src)
+
+
+def _method_tokens(text):
+    """the method names a piece of Go text mentions: http.MethodXxx selectors and string literals"""
+    res, bad = [], []
+    for tok in re.findall(r'http\.Method\w+|"(?:[^"\\]|\\.)*"', text):
+        if tok.startswith('"'):
+            res.append(tok[1:-1])
+        elif tok.split(".")[1] in HTTP_METHOD_CONSTS:
+            res.append(HTTP_METHOD_CONSTS[tok.split(".")[1]])
+        else:
+            bad.append(tok)
+    return res, bad
+
+
+def _valid_methods(pr):
+    """the set validMethod accepts, for the shapes that say it literally: a disjunction of equalities, a switch whose
+    cases return true, membership in a package-level map / slice literal.  None = shape not recognised."""
+    m = re.search(r"func validMethod\((\w+) string\) bool \{", pr)
+    if not m:
+        return None
+    arg = m.group(1)
+    body = _func_body(pr, r"func validMethod\(\w+ string\) bool \{")
+    if re.search(r"!=|&&|!\s*\w|strings\.|len\(|\[\s*\d*\s*:|\+", body):
+        return None
+    flat = " ".join(body.split())
+    toks, bad = _method_tokens(body)
+    if bad:
+        return None
+    # (a) return method == A || method == B ...
+    if re.fullmatch(r"return (?:\(?%s == (?:http\.\w+|\"[^\"]*\")\)? ?(?:\|\| ?)?)+" % arg, flat) and flat.count("==") == len(toks):
+        return toks
+    # (b) switch method { case A, B: return true [default: return false] } [return false]
+    sw = re.fullmatch(r"switch %s \{ ((?:case [^:]+: return true )+)(?:default: return false )?\} ?(?:return false)?" % arg, flat)
+    if sw and len(_method_tokens(sw.group(1))[0]) == len(toks):
+        return toks
+    # (c) _, ok := table[method]; return ok   /   return slices.Contains(table, method)   with a literal table
+    tb = re.fullmatch(r"(?:_, (\w+) := (\w+)\[%s\] return \1|return (\w+)\[%s\]|return slices\.Contains\((\w+), %s\))" % (arg, arg, arg), flat)
+    if tb:
+        name = tb.group(2) or tb.group(3) or tb.group(4)
+        lit = re.search(r"\b%s\s*=\s*(?:map\[string\](?:struct\{\}|bool)|\[\]string)\s*\{" % name, pr)
+        if lit:
+            inner = _func_body(pr, r"\b%s\s*=\s*(?:map\[string\](?:struct\{\}|bool)|\[\]string)\s*\{" % name)
+            if "false" not in inner:
+                ts, bad = _method_tokens(inner)
+                if ts and not bad:
+                    return ts
+    return None
+
+
+def extract_constants():
+    """what the model assumes about rest/router/patrouter.go and core/search/tree.go, re-read from the checked tree.
+    Returns (values, notes).  A declaration whose SHAPE is not recognised (the code was rewritten) is not an alarm by
+    itself: the model's value is kept for it, the fact is noted in the evidence, and the behaviour it stands for is
+    judged by execution (the method vocabulary case of the corpus, the observed status / Allow header of every 405)."""
+    pr = _pkg_source("rest/router")
+    tr = _pkg_source("core/search")
+    v, notes = dict(MODEL_CONSTS), []
+
+    def unread(what, why):
+        notes.append("NOT RE-READ: %s (%s) - the model's value is kept, behaviour judged by execution only" % (what, why))
+
+    try:
+        methods = _valid_methods(pr)
+    except RuntimeError:
+        methods = None
+    if methods is None:
+        unread("validMethod", "not one of the recognised literal shapes")
+    else:
+        v["methods"] = methods
+
+    def const(src, name, key, what):
+        m = re.search(r'\b%s\s*(?:string|rune|byte)?\s*=\s*("(?:[^"\\]|\\.)*"|\'(?:[^\'\\]|\\.)\')' % name, src)
         if not m:
-            raise RuntimeError("C09 regen: constant %s not found in %s" % (name, what))
-        return m.group(1)[1:-1]
-    serve = _func_body(pr, r"func \(pr \*patRouter\) ServeHTTP\(w http\.ResponseWriter, r \*http\.Request\) \{")
-    st = re.findall(r"w\.WriteHeader\(http\.(\w+)\)", serve)
-    if len(st) != 1 or st[0] not in HTTP_STATUS_CONSTS:
-        raise RuntimeError("C09 regen: ServeHTTP does not write exactly one known status itself: %r" % st)
-    hdr = re.findall(r"w\.Header\(\)\.Set\((\w+),", serve)
-    if hdr != ["allowHeader"]:
-        raise RuntimeError("C09 regen: ServeHTTP sets other headers than allowHeader: %r" % hdr)
-    return {"methods": methods, "allow_header": const(pr, "allowHeader", "patrouter.go"),
-            "allow_sep": const(pr, "allowMethodSeparator", "patrouter.go"), "status": HTTP_STATUS_CONSTS[st[0]],
-            "colon": const(tr, "colon", "tree.go"), "slash": const(tr, "slash", "tree.go")}
+            unread("constant %s" % name, "no literal declaration in %s" % what)
+        else:
+            v[key] = m.group(1)[1:-1]
+    const(pr, "allowHeader", "allow_header", "rest/router")
+    const(pr, "allowMethodSeparator", "allow_sep", "rest/router")
+    const(tr, "colon", "colon", "core/search")
+    const(tr, "slash", "slash", "core/search")
+    try:
+        serve = _func_body(pr, r"func \(\w+ \*patRouter\) ServeHTTP\(\w+ http\.ResponseWriter, \w+ \*http\.Request\) \{")
+        st = re.findall(r"\.WriteHeader\(http\.(\w+)\)", serve)
+        if len(st) == 1 and st[0] in HTTP_STATUS_CONSTS:
+            v["status"] = HTTP_STATUS_CONSTS[st[0]]
+        else:
+            unread("the status ServeHTTP writes", "ServeHTTP does not write exactly one named status itself: %r" % st)
+    except RuntimeError:
+        unread("the status ServeHTTP writes", "ServeHTTP not found")
+    return v, notes
 
 
 def regen_constants():
-    v = extract_constants()
+    v, notes = extract_constants()
     for k in ("colon", "slash"):
         if len(v[k]) != 1 or v[k] in '"\\':
             raise RuntimeError("C09 regen: unexpected %s constant %r" % (k, v[k]))
@@ -231,7 +305,7 @@ def regen_constants():
         with open(tmp, "w") as f:
             f.write(text)
         os.replace(tmp, path)
-    return v, old != text
+    return v, old != text, notes
 
 
 class C09(Property):
@@ -280,9 +354,9 @@ class C09(Property):
                    "a request is served after all registrations (Handle is not concurrent with ServeHTTP); no AddRoutes after Start"]
 
     def regen(self, ctx):
-        v, changed = regen_constants()
-        return ["constants re-read from patrouter.go / tree.go: methods=%s allow=%r sep=%r status=%d%s"
-                % (",".join(v["methods"]), v["allow_header"], v["allow_sep"], v["status"], " (CHANGED)" if changed else "")]
+        v, changed, notes = regen_constants()
+        return ["constants re-read from rest/router / core/search: methods=%s allow=%r sep=%r status=%d%s"
+                % (",".join(v["methods"]), v["allow_header"], v["allow_sep"], v["status"], " (CHANGED)" if changed else "")] + notes
 
     def prepare(self, ctx):
         ok, res = vlib.go_build("c09")
@@ -346,6 +420,80 @@ class C09(Property):
              "reqs": [["GET", "/u/1/x"], ["GET", "/u/1/y"], ["GET", "/u/1"], ["POST", "/u/1"]]},
         ]
         return self._server_corpus() + router_cases
+
+    # ---- request segments spelled like the route table's own PATTERN segments (seeded C09-11) --------------
+    # A `:name` pattern segment matches ANY single request segment, also one that is spelled ":name" itself (an unfilled
+    # client URL template), ":" , "::", "*", or like a literal sibling; a literal pattern segment matches only itself.
+    # Any code path that classifies a REQUEST token with the helper made for PATTERN tokens (getChildren: first byte ':'
+    # => variable map) goes wrong exactly on such requests.  Deterministic family: for fixed tables, every route, every
+    # segment position, every spelling of the vocabulary below (plus every segment text occurring in the table), sent
+    # with URL.Path set directly and as a raw request line (':' also percent-encoded: `%3Aid`).
+    SPELLINGS = [":", "::", "*", ":id", ":ID", ":idx", "id", "%3Aid"]
+
+    def _spell_requests(self, regs, extra_methods=("PUT",), raw_every=3, cap=400):
+        acc = _accepted(regs)
+        vocab = []
+        for _, pat in acc:
+            for s in pat:
+                if s not in vocab and s != "":
+                    vocab.append(s)
+        vocab += [s for s in self.SPELLINGS if s not in vocab]
+        reqs, seen, k = [], set(), 0
+        fill = lambda pat: [("7" if s.startswith(":") else s) for s in pat]
+
+        def put(m, segs):
+            nonlocal k
+            p = "/" + "/".join(segs)
+            if (m, p) in seen:
+                return
+            seen.add((m, p))
+            reqs.append([m, p, "path"])
+            k += 1
+            if k % raw_every == 0 and all(ord(ch) < 128 and ch not in " ?#%" for ch in p):
+                # the same path as a request line: once verbatim, once with every ':' percent-encoded
+                reqs.append([m, p, "raw"])
+                if ":" in p:
+                    reqs.append([m, p.replace(":", "%3A" if k % 2 else "%3a"), "raw"])
+        for m, pat in acc:
+            put(m, list(pat))                       # the pattern text itself, every position at once
+            for i in range(len(pat)):
+                for s in vocab:
+                    segs = fill(pat)
+                    segs[i] = s                     # one position spelled like a pattern segment, the others filled in
+                    put(m, segs)
+                    segs = list(pat)
+                    segs[i] = "7"                   # and the converse: all other positions keep their pattern spelling
+                    put(m, segs)
+            for m2 in extra_methods:               # the 405/404 side of the same paths
+                put(m2, list(pat))
+        return reqs[:cap]
+
+    def _spelling_cases(self):
+        t1 = [["GET", "/users/:id"], ["GET", "/users/:id/posts/:pid"], ["GET", "/users/me"], ["POST", "/users/:id"],
+              ["DELETE", "/users/:id/posts/:pid"], ["GET", "/:id"], ["GET", "/"]]
+        t2 = [["GET", "/a/:/b"], ["GET", "/a/:/::"], ["GET", "/s/*"], ["GET", "/s/:x/*"], ["POST", "/s/:x"], ["GET", "/%3Aid/:id"],
+              ["GET", "/:x/:y/:z"], ["PATCH", "/:id/:id"]]
+        t3 = [["GET", "/:a"], ["POST", "/:a/:b"], ["HEAD", "/:a/lit/:c"], ["OPTIONS", "/lit/:b"], ["GET", "/lit/:b/:c/:d"]]
+        cases = []
+        for regs in (t1, t2, t3):
+            reqs = self._spell_requests(regs)
+            for i in range(0, len(reqs), 140):
+                cases.append({"nf": False, "na": False, "regs": regs, "reqs": reqs[i:i + 140]})
+        # the same through rest.Server: the variable segments come from the table AND from the prefix
+        users = [["GET", "/users/:id"], ["GET", "/users/:id/posts/:pid"], ["POST", "/users/:id"], ["GET", "/users/me"]]
+        full = [[m, _join("/api/:ver", p)] for m, p in users] + [[m, _join("/:tenant", p)] for m, p in users[:2]]
+        sreqs = self._spell_requests(full, cap=2000)
+        for k in range(0, len(sreqs), 200):
+            cases.append({"kind": "server", "regs": [], "tables": [users],
+                          "servers": [{"nf": False, "na": False, "cors": False, "use": False, "chain": False, "native": True, "must": False},
+                                      {"nf": True, "na": True, "cors": False, "use": True, "chain": True, "native": False, "must": False}],
+                          "events": [{"ev": "mount", "server": 0, "table": 0, "lo": 0, "hi": 4, "single": False, "mw": False, "tag": 0,
+                                      "opts": [["prefix", "/api/:ver"], ["jwt"]]},
+                                     {"ev": "mount", "server": 1, "table": 0, "lo": 0, "hi": 2, "single": True, "mw": True, "tag": 1,
+                                      "opts": [["timeout"], ["prefix", "/:tenant"]]},
+                                     {"ev": "start", "server": 0}, {"ev": "start", "server": 1}],
+                          "reqs": [[str(i % 2)] + r for i, r in enumerate(sreqs[k:k + 200])]})
+        return cases
 
     def _server_corpus(self):
         def g(prefix, routes, mw=False, opts=False, single=False):
@@ -463,10 +611,19 @@ class C09(Property):
         r = rng.random()
         if regs and r < 0.65:
             c = _clean(rng.choice(regs)[1]) or [""]
-            segs = [(rng.choice(["a", "b", "c", "1", "é", "a b", ":x", "%2F"]) if s.startswith(":") else s) for s in c]
+            # a variable position is filled with an ordinary value, or (C09-11) with the pattern's OWN spelling / another
+            # pattern-like spelling: `:name` matches any single segment, also one that looks like a pattern segment
+            def fill(s):
+                f = rng.random()
+                if f < 0.12:
+                    return s
+                if f < 0.17:
+                    return rng.choice(self.SPELLINGS + [x for x in _clean(rng.choice(regs)[1]) or [""] if x])
+                return rng.choice(["a", "b", "c", "1", "é", "a b", ":x", "%2F"])
+            segs = [(fill(s) if s.startswith(":") else s) for s in c]
             m = rng.random()
             if m < 0.15 and segs:
-                segs[rng.randrange(len(segs))] = rng.choice(["a", "b", "c"])
+                segs[rng.randrange(len(segs))] = rng.choice(["a", "b", "c", "a", "b", "c", ":x", ":y"])
             elif m < 0.22:
                 segs.append(rng.choice(["a", "b", "c"]))
             elif m < 0.29 and segs:
@@ -593,7 +750,15 @@ class C09(Property):
             cases.append(self._server_case(rng))
         if tier == "thorough":
             cases += self._exhaustive()
+        # the FIXED families (independent of the seed, part of every run): spread evenly over the generated cases, because
+        # the Coq evaluation shards the case list contiguously and all corpus() cases already sit in the first shard
+        fixed = self._fixed_families()
+        for i, c in enumerate(fixed):
+            cases.insert((i + 1) * len(cases) // (len(fixed) + 1), c)
         return cases
+
+    def _fixed_families(self):
+        return self._spelling_cases()
 
     def _decorate(self, rng, reqs, nregs=None):
         """more tokens on the flag (last element) of requests: a parked handler parks BEFORE its first read ("pre");
